@@ -108,6 +108,7 @@ class Driver:
         self.data = rng.normal(size=(T, nw)) + rng.integers(0, 3, size=(T, 1)) * 2.0
         lam = np.full((nw, nw), 0.11) if lam_matrix else 0.11
         beta = np.full(T, 1.5) if beta_vector else 1.5
+
         if beta_vector:
             # free transitions (exact zeros), among them at both ends of the chain; the pattern follows from the case seed
             for pos, bit in ((0, 1), (1, 2), (T - 2, 4), (T - 1, 8), (T // 2, 16), (T // 2 + 1, 16)):
@@ -193,6 +194,21 @@ class Driver:
         elif kind == "deep_copy":
             cp = s.deep_copy()
             check_deep_copy(s, cp)
+            if op.get("i", 0) % 2 == 0:
+                # the same for a state whose scalar hyper-parameters are held as 0-d arrays (mutable like any array, ndim 0 like
+                # a scalar); a throw-away state: the phases are never run on it
+                import dataclasses
+                s0 = s.shallow_copy()
+                a0 = s.arguments.deep_copy()
+                for name in ("sparsity_weight", "label_switching_cost"):
+                    if not isinstance(getattr(a0, name), np.ndarray):
+                        try:
+                            setattr(a0, name, np.array(float(getattr(a0, name))))
+                        except dataclasses.FrozenInstanceError:
+                            a0 = dataclasses.replace(a0, **{name: np.array(float(getattr(a0, name)))})
+                s0.arguments = a0
+                check_deep_copy(s0, s0.deep_copy())
+                self.t.cls("deep_copy_with_0d_array_hyper_parameters")
             self._add(cp, "deep")
             self.copied = True
             self._check_all("deep copy", target=i, new_index=len(self.states) - 1)
@@ -205,6 +221,8 @@ class Driver:
                     v = getattr(c, f)
                     if isinstance(v, np.ndarray) and v.dtype.kind == "f" and v.size and v.flags.writeable:
                         v += 1.0
+                        if v.ndim == 2 and v.shape[0] >= 2 and (op.get("i", 0) & 1):
+                            v[0, 1] += 2.0 ** -20          # no longer bit-exactly symmetric (a restored or hand-built state)
             for name in ("sparsity_weight", "label_switching_cost"):
                 v = getattr(s.arguments, name)
                 if isinstance(v, np.ndarray) and self.owned[i] == "deep" and self._owns_arguments(i):
